@@ -377,7 +377,15 @@ where
                     }
                 }
             }
-            Err(e) => Err(PdfError::Shared { source: e.clone()}),
+            Err(_) => {
+                // The cached error may stem from loading this object as a different type:
+                // load it as the type that is asked for now.
+                let p = self.resolve(key).map_err(|e| PdfError::Shared { source: Arc::new(e) })?;
+                match T::from_primitive(p, self) {
+                    Ok(val) => Ok(RcRef::new(key, val.into())),
+                    Err(e) => Err(PdfError::Shared { source: Arc::new(e) })
+                }
+            }
         }
     }
     fn options(&self) -> &ParseOptions {
